@@ -822,7 +822,7 @@ func c18Direct(tier string, idx int, r *Result) {
 		tags := []string{"lib:" + lib, "kind:" + typeKindTag(c.T), "member:" + c.Member, c18ArgTag(c)}
 		for _, f := range fails {
 			t := tags
-			if f[0] == "MEMBER:missing" {
+			if strings.HasSuffix(f[0], "MEMBER:missing") {
 				t = tags[:3]
 			}
 			capFail(r, f[0], t, map[string]string{"vm": "runtime", "tree": "interpreter"}[lib]+"/value: "+c.String(), f[1])
@@ -884,7 +884,7 @@ func c18JudgeProgram(c c18Case, ref c18Ref, o Obs) (fails [][2]string, outcome s
 	add := func(class, detail string) { fails = append(fails, [2]string{class, detail}) }
 	if cc := crashClass(o); cc != "" {
 		if strings.Contains(o.Msg, "not found on") && strings.Contains(o.Msg, c.Member) {
-			add("MEMBER:missing", "the analyzer accepted the program but the member lookup crashed the host: "+o.String())
+			add("HOST-PANIC(member lookup):MEMBER:missing", "the analyzer accepted the program but the member lookup crashed the host: "+o.String())
 			return fails, "missing"
 		}
 		add(cc, o.String())
@@ -956,7 +956,8 @@ func sameDisplayedSet(a, b string) bool {
 }
 
 func c18Prog(tier string, idx int, r *Result) {
-	c := c18Cases(tier)[idx]
+	backend := backendNames[idx%2]
+	c := c18Cases(tier)[idx/2]
 	ref := c18Reference(c)
 	text, _ := c18Program(c)
 	cas := "// " + c.String() + "\n" + text
@@ -973,28 +974,18 @@ func c18Prog(tier string, idx int, r *Result) {
 		}
 		return
 	}
-	ot := RunTree(a, defaultOpts())
-	ov := RunVM(a, defaultOpts())
-	r.Obs(ov)
-	r.Trans(4)
-	outs := map[string]string{}
-	for _, bo := range []struct {
-		n string
-		o Obs
-	}{{"tree", ot}, {"vm", ov}} {
-		fails, outcome := c18JudgeProgram(c, ref, bo.o)
-		outs[bo.n] = outcome
-		tags := []string{"backend:" + bo.n, "kind:" + typeKindTag(c.T), "member:" + c.Member, c18ArgTag(c)}
-		for _, f := range fails {
-			t := tags
-			if f[0] == "MEMBER:missing" {
-				t = tags[:3]
-			}
-			capFail(r, f[0], t, cas, f[1])
+	o := runOn(backend, a, r)
+	fails, outcome := c18JudgeProgram(c, ref, o)
+	tags := []string{"backend:" + backend, "kind:" + typeKindTag(c.T), "member:" + c.Member, c18ArgTag(c)}
+	for _, f := range fails {
+		t := tags
+		if strings.HasSuffix(f[0], "MEMBER:missing") {
+			t = tags[:3]
 		}
-		r.Outcome(bo.n + ":" + outcome)
+		capFail(r, f[0], t, "// backend: "+backend+"\n"+cas, f[1])
 	}
-	r.Distinct(fmt.Sprintf("prog|%s|%s|%s|vm:%s|tree:%s|%s", typeKindTag(c.T), c.Member, c18ArgTag(c), outs["vm"], outs["tree"], ov.Out))
+	r.Outcome(backend + ":" + outcome)
+	r.Distinct(fmt.Sprintf("prog|%s|%s|%s|%s|%s|%s", backend, typeKindTag(c.T), c.Member, c18ArgTag(c), outcome, o.Out))
 }
 
 func init() {
@@ -1002,7 +993,7 @@ func init() {
 		n := func(tier string) int { return len(c18Cases(tier)) }
 		return &Check{ID: "C18", Scenarios: []Scenario{
 			{Name: "members-direct", Count: n, Run: c18Direct},
-			{Name: "members-programs", Count: n, Run: c18Prog},
+			{Name: "members-programs", Count: func(tier string) int { return 2 * n(tier) }, Run: c18Prog},
 		}}
 	})
 }
